@@ -53,6 +53,7 @@ pool; corner and cell size = 0, -0, 0.1, 1/3, denormal, max, 1e16/1e22 (repr swi
 patterns; names/comments printable ASCII with blanks and capitals, 15 % of them with line breaks. Non-trivial = round trip performed and compared.
 """
 import io
+import os
 import json
 import random
 import re
@@ -343,7 +344,7 @@ def body(ctx):
     from hydrodiy.gis.grid import Grid, Catchment, FLOWDIRCODE
     rng = ctx.rng
     reqs, checks = [], []          # model requests and what to compare the replies with
-    work = C.BUILD / f"c13-work-{ctx.seed}-{ctx.tier}"
+    work = C.BUILD / f"c13-work-{ctx.seed}-{ctx.tier}-{os.getpid()}"   # per process: two runs of this check may overlap
     shutil.rmtree(work, ignore_errors=True)
     work.mkdir(parents=True)
 
